@@ -108,6 +108,7 @@ struct Plan {
     std::map<std::string, int64_t> par;     // engine parameters (capacity stride, restart kind, task count, ...)
     std::vector<std::string> faults;        // fault kinds applied while generating (informational + evidence)
     std::string note;           // tree notation etc. (comment only)
+    std::vector<Plan> sub;      // per-task plans (interleave engine)
     std::string expect_clause;  // set on saved replay files
     uint64_t expect_hash = 0;
     int64_t P(const char *k, int64_t d = 0) const { auto it = par.find(k); return it == par.end() ? d : it->second; }
